@@ -132,6 +132,20 @@ static void stage_lengths(Run &R) {
     R.space("C04 label lengths 0..300 x 3 fillings x 10 positions; total lengths 240..260 x 4 layouts x 4 dot variants; bytes 0x01..0xFF x 9 positions; numeric shapes", total);
 }
 
+// host names longer than 2^31 octets (length arithmetic in int would wrap): must be rejected like any name over 253
+static std::optional<Failure> check_huge(Run &R, int shape) {
+    Case cs; cs.i("huge", 1).i("shape", shape); size_t n = 0;
+    char *s = huge_input(shape, &n); if (!s) { R.note("huge input: allocation failed, case skipped"); return std::nullopt; }
+    int r = A->part(VP_ASCII_DOMAIN, s, s + n, 0, nullptr); R.eval();
+    std::optional<Failure> f;
+    if (r == 0) f = Failure{"huge-hostname-accepted", cs.str(), "host name of " + std::to_string(n) + " octets (shape " + std::to_string(shape) + ") accepted by is_ascii_domain"};
+    if (!f && shape == 4) { s[0] = 'x'; s[1] = '@'; for (int m = 0; m < 3 && !f; m++) { v_outcome o; A->email_direct(m, s, n, 0, &o); R.eval(); if (o.rc == 0) f = Failure{"huge-hostname-accepted", cs.str(), std::string("address with a host name of ") + std::to_string(n - 2) + " octets accepted by is_" + ref::MODE_NAME[m] + "_email"}; } }
+    free(s);
+    R.nontrivial(hashs(cs.str())); R.count("huge-inputs"); R.sample("huge", "shape " + std::to_string(shape) + ", " + std::to_string(n) + " octets: is_ascii_domain=" + std::to_string(r), 4);
+    return f;
+}
+static void stage_huge(Run &R) { for (int shape : {0, 4}) { if ((shape / 4) % R.a.nworkers != R.a.worker) continue; auto f = check_huge(R, shape); if (f && !R.fail(*f)) return; } }
+
 static void stage_random(Run &R) {
     rc_run(R, "C04 generated host names agree with the reference", 3.0, [&](Src &s) -> std::optional<Failure> {
         uint32_t k = s.pick(4);
@@ -167,12 +181,14 @@ int main(int argc, char **argv) {
     for (int m = 0; m < 4; m++) { OBJT[m] = new Obj(A); if (OBJT[m]->configure(m, 1, 0x7ff) != 0) return 2; }
     int rcode;
     if (!R.a.replay.empty()) {
-        auto f = check_one(R, Case::parse(R.a.replay).getb("domain"));
+        Case rc_ = Case::parse(R.a.replay);
+        auto f = rc_.has("huge") ? check_huge(R, (int) rc_.geti("shape")) : check_one(R, rc_.getb("domain"));
         if (f) { printf("REPLAY-FAIL %s: %s\n", f->cls.c_str(), f->explain.c_str()); rcode = 3; }
         else { printf("REPLAY-PASS\n"); rcode = 0; }
     } else {
         if (R.a.stage == "bounded") stage_bounded(R);
         else if (R.a.stage == "lengths") stage_lengths(R);
+        else if (R.a.stage == "huge") stage_huge(R);
         else if (R.a.stage == "random") stage_random(R);
         else if (R.a.stage == "corpus") stage_corpus(R);
         else { fprintf(stderr, "unknown stage %s\n", R.a.stage.c_str()); return 2; }
